@@ -114,7 +114,7 @@ func (db *DB) Select(query interface{}, args ...interface{}) (tx *DB) {
 
 	switch v := query.(type) {
 	case []string:
-		tx.Statement.Selects = v
+		tx.Statement.Selects = append(make([]string, 0, len(v)+len(args)), v...)
 
 		for _, arg := range args {
 			switch arg := arg.(type) {
